@@ -16,7 +16,7 @@ package rt
 
 import "unsafe"
 
-const chanWaiters = 64
+const chanWaiters = 512 // = maxTasks: every task of a crowd may wait on one channel
 
 type selGroup struct {
 	fired bool
